@@ -195,7 +195,7 @@ theorem emit_zeros (n : Nat) (m : Mode) : emitValue (.numeric 0 (some (n * 2)) m
       have : (n + 1) * 2 - 1 + 1 = 2 * (n + 1) := by omega
       rw [← this, List.replicate_succ']; simp
     simp only [numHex, numHexLen, getNegative, hne, beq_self_eq_true, if_true, Bool.false_eq_true, if_false,
-      Bool.not_false, fmtHex_zero, emitHex, h1]
+      Bool.not_false, Bool.false_and, fmtHex_zero, emitHex, h1]
     rw [h2, emitPairs_zeros]
     rfl
 
@@ -662,12 +662,92 @@ theorem createOperand_multiWord_reject {row : InstrRow} (hp : row.isPseudo = tru
 /-- `FCC dbodyd`: whatever the delimiter character `d`, the value is the text between the delimiters -/
 theorem createOperand_fcc {row : InstrRow} (hp : row.isPseudo = true) (hd : row.isPseudoDefine = false)
     (hmb : row.isMultiByte = false) (hmw : row.isMultiWord = false) (hinc : row.isInclude = false)
-    (hsd : row.isStringDefine = true) (d : Char) (body : Str) :
+    (hsd : row.isStringDefine = true) (d : Char) (body : Str) (hs : ∀ c ∈ body, c.toNat < 256) :
     createOperand (d :: (body ++ [d])) row =
       .ok { kind := .pseudo, text := d :: (body ++ [d]), value := .str body } := by
   have hl : (d :: (body ++ [d])).getLast? = some d := by
     have : d :: (body ++ [d]) = (d :: body) ++ [d] := rfl
     rw [this, List.getLast?_append]; simp
+  have hs' : ∀ c ∈ body, c.toNat ≤ 255 := fun c hc => by have := hs c hc; omega
   simp [createOperand, hp, hd, hmb, hmw, hinc, hsd, createV, create, hl]
+  rw [if_pos hs']
+
+/-! ### every string value `create` builds is narrow (model addendum to batch B2) -/
+
+/-- one-byte characters only, if the value is a string -/
+def Value.strNarrow : Value → Prop
+  | .str cs => ∀ c ∈ cs, c.toNat < 256
+  | _ => True
+
+theorem numericOfStr_strNarrow {s : Str} {h : Option Nat} {m : Mode} {x : Value}
+    (hx : numericOfStr s h m = .ok x) : x.strNarrow := by
+  unfold numericOfStr at hx
+  dsimp only at hx
+  split at hx
+  · rename_i heq
+    simp only [Except.ok.injEq] at hx
+    subst hx
+    split at heq
+    · split at heq
+      · simp only [Option.some.injEq] at heq; subst heq; trivial
+      · cases heq
+    · cases heq
+  · repeat' split at hx
+    all_goals first | (cases hx; done) | (cases hx; trivial)
+
+theorem create_strNarrow : ∀ (fuel : Nat) (s : Str) (a b c : Bool) (v : Value),
+    create fuel s a b c = .ok v → v.strNarrow := by
+  intro fuel
+  cases fuel with
+  | zero => intro s a b c v h; simp [create] at h
+  | succ n =>
+    intro s a b c v h
+    unfold create at h
+    split at h
+    · cases h
+    · dsimp only at h
+      split at h
+      · rename_i heq
+        simp only [Except.ok.injEq] at h; subst h
+        split at heq
+        · rename_i hc
+          simp only [Option.some.injEq] at heq; subst heq
+          simp only [Bool.and_eq_true, List.all_eq_true, decide_eq_true_eq] at hc
+          intro x hx
+          have := hc.2 x hx
+          omega
+        · cases heq
+      · split at h
+        · rename_i heq
+          simp only [Except.ok.injEq] at h; subst h
+          repeat' split at heq
+          all_goals first | (cases heq; done) | (cases heq; trivial)
+        · split at h
+          · rename_i heq
+            simp only [Except.ok.injEq] at h; subst h
+            repeat' split at heq
+            all_goals first | (cases heq; done) | (cases heq; trivial)
+          · repeat' split at h
+            all_goals first
+              | (cases h; done)
+              | (cases h; trivial)
+              | (simp only [Except.ok.injEq] at h; subst h; exact numericOfStr_strNarrow ‹_›)
+
+/-- every string value `Value.create_from_str` builds consists of one-byte characters (model addendum: StringValue
+raises on wider ones and the cascade goes on), so each character renders as exactly two hex digits -/
+theorem create_str_narrow {fuel : Nat} {value : Str} {isStr is16 defExt : Bool} {cs : Str}
+    (h : create fuel value isStr is16 defExt = .ok (.str cs)) : ∀ c ∈ cs, c.toNat < 256 :=
+  create_strNarrow fuel value isStr is16 defExt _ h
+
+theorem createV_str_narrow {value : Str} {isStr is16 defExt : Bool} {cs : Str}
+    (h : createV value isStr is16 defExt = .ok (.str cs)) : ∀ c ∈ cs, c.toNat < 256 := create_str_narrow h
+
+/-- hence its rendering is two hex digits per character, its length in bytes the number of characters, and it emits
+the character codes -/
+theorem create_str_bytes {fuel : Nat} {value : Str} {isStr is16 defExt : Bool} {cs : Str}
+    (h : create fuel value isStr is16 defExt = .ok (.str cs)) :
+    (Value.str cs).hex? = some ((cs.map Char.toNat).flatMap byteHex) ∧ (Value.str cs).byteLen? = some cs.length ∧
+      emitValue (.str cs) = some (cs.map Char.toNat) :=
+  ⟨hex_str cs (create_str_narrow h), byteLen_str cs (create_str_narrow h), emitValue_str cs (create_str_narrow h)⟩
 
 end CoCo.Asm
